@@ -565,6 +565,10 @@ class Verifier(Executor):
         self.cur_tags = set()
         for label, clause, tags in con.clauses("requires"):
             st.pc.append(zbool(truth(self.eval_spec(clause, st, {}))))
+        for d in con.extra.get("defs", []):
+            if "ufun_" not in d and "tv(" not in d:
+                raise VerifError("defs may only define uninterpreted specification functions")
+            st.pc.append(zbool(truth(self.eval_spec(d, st, {}))))
         if not self.prover.feasible(self.axioms + st.pc, timeout_ms=10000):
             raise VerifError("vacuous contract: requires is unsatisfiable")
         for gname in set(con.extra.get("ghost_calls", {}).values()):
